@@ -23,8 +23,10 @@ from models import hooks
 class Quartic:
     """nld(q) = offset + scale * (0.5 q^T A q + b * sum(q^4) + c.q)  (smooth, non-quadratic)."""
 
-    def __init__(self, A, b, c, offset=0.0, scale=1.0, nan_beyond=None):
+    def __init__(self, A, b, c, offset=0.0, scale=1.0, nan_beyond=None, center=None):
         self.A = np.array(A, dtype=float)
+        # translation: the density is that of q - center (large coordinates, e.g. parameters in small units)
+        self.center = None if center is None else np.array(center, dtype=float)
         self.b = float(b)
         self.c = np.array(c, dtype=float)
         self.offset = float(offset)
@@ -36,12 +38,16 @@ class Quartic:
         q = np.asarray(q, dtype=float)
         if self.nan_beyond is not None and q[0] > self.nan_beyond:
             return float("nan")
+        if self.center is not None:
+            q = q - self.center
         return self.offset + self.scale * (
             0.5 * q @ self.A @ q + self.b * np.sum(q**4) + self.c @ q
         )
 
     def grad(self, q):
         q = np.asarray(q, dtype=float)
+        if self.center is not None:
+            q = q - self.center
         return self.scale * (self.A @ q + 4 * self.b * q**3 + self.c)
 
     def grad_t(self, q):
@@ -49,13 +55,18 @@ class Quartic:
 
     def hess(self, q):
         q = np.asarray(q, dtype=float)
+        if self.center is not None:
+            q = q - self.center
         return self.scale * (self.A + 12 * self.b * np.diag(q**2))
 
     def hess_t(self, q):
         return self.hess(q), self.grad(q), self.nld(q)
 
     def mtp(self, q):
-        return _QuarticMTP(np.array(q, dtype=float), self.b * self.scale)
+        q = np.array(q, dtype=float)
+        if self.center is not None:
+            q = q - self.center
+        return _QuarticMTP(q, self.b * self.scale)
 
     def mtp_t(self, q):
         return self.mtp(q), self.hess(q), self.grad(q), self.nld(q)
@@ -376,7 +387,8 @@ def on_manifold_start(name: str, dim: int, variant: int = 0):
         return q
     if name == "planes":
         q = np.array([0.3, 0.0, 0.4, -0.2, 0.1, 0.5])[:dim] * 1.0
-        q[2] = [0.4, -0.7, 0.0][variant % 3]
+        if dim > 2:
+            q[2] = [0.4, -0.7, 0.0][variant % 3]
         return q
     if name == "wavy":
         q = np.array([0.3, 0.0, -0.4, 0.2, 0.1, 0.5])[:dim] * (1 if variant % 2 == 0 else -1)
@@ -629,9 +641,11 @@ def random_system_spec(rng, *, kinds=SYSTEM_KINDS, dims=(1, 2, 3), offset=0.0, s
 
 def start_position(spec, rng, variant=0):
     """A start position appropriate for the system spec (on manifold if constrained)."""
+    center = spec["target"].get("center")
+    shift = 0.0 if center is None else np.array(center, dtype=float)
     if spec["kind"] in ("con", "gcon"):
-        return on_manifold_start(spec["constraint"], spec["dim"], variant)
-    return np.array([rng.uniform(-1.2, 1.2) for _ in range(spec["dim"])])
+        return on_manifold_start(spec["constraint"], spec["dim"], variant) + shift
+    return np.array([rng.uniform(-1.2, 1.2) for _ in range(spec["dim"])]) + shift
 
 
 def compatible_integrators(kind):
